@@ -266,11 +266,17 @@ def r18_356(ctx):
     bidx = bpar[0] - 1 if len(bpar) == 1 else 2
     ok = False
     why = "insert_into_cur_line(0, mov) then set_principle_variation() between the sub-search and the info line"
+    from .search import _unref
+    store = _ins_line_store(f)
     for ibb, it in ins:
         ia = ex.call_args(ibb)
         ply0 = ia[1] == ("const", 0)
-        mov = strip_refs(ia[2])
-        same_mov = any(strip_refs(ex.call_args(a)[bidx]) == mov for a in absb)
+        # the descriptor that ends up in cur_line[0]: the argument, or its `.last_move`, as the callee stores it
+        stored = None
+        if store is not None:
+            given = _unref(ia[store[0]])
+            stored = ("field", given, "last_move") if store[1] == "last_move" else given
+        same_mov = stored is not None and any(("field", _unref(ex.call_args(a)[bidx]), "last_move") == stored for a in absb)
         order = any(b.node_dominates(a, ibb) for a in absb) and any(b.node_dominates(ibb, p) and b.node_dominates(p, cbb) for p in pvs)
         if ply0 and same_mov and order:
             ok = True
@@ -279,14 +285,16 @@ def r18_356(ctx):
     ctx.ob("get_best_move:pv-head-is-accepted-move", ok, b.where(loc), why)
 
 
-def r18_7(ctx):
-    """PV bookkeeping primitives: insert_into_cur_line stores the move's descriptor at the given ply,
-    set_principle_variation copies the current line into the PV, the info line prints the PV array."""
-    f = ctx.facts
+def _ins_line_store(f):
+    """What insert_into_cur_line writes: (index of the parameter the stored value comes from,
+    "last_move" if it stores that board's `.last_move` / "id" if the parameter is the move descriptor
+    itself, index expression is the ply parameter) or None."""
     b = f.body(INS_LINE)
-    ctx.note_fn(INS_LINE, SET_PV, SSI)
     ex = Exprs(b)
-    ok = False
+    try:
+        lm_ty = f.struct_field_ty("board::BoardState", "last_move")
+    except Exception:
+        lm_ty = None
     for loc, st in b.iter_stmts():
         if st["k"] == "assign" and st["place"]["proj"]:
             names = [e.get("name") for e in st["place"]["proj"] if e["k"] == "field"]
@@ -297,8 +305,24 @@ def r18_7(ctx):
                 ie = idx[0]
                 while ie[0] == "cast":
                     ie = ie[2]
-                ok = v[0] == "field" and v[2] == "last_move" and strip_refs(v[1])[0] == "arg" and i32p and ie == ("arg", i32p[0])
-    ctx.ob("insert_into_cur_line", ok, b.file, "cur_line[ply] = mov.last_move")
+                if not (i32p and ie == ("arg", i32p[0])):
+                    return None
+                if v[0] == "field" and v[2] == "last_move" and strip_refs(v[1])[0] == "arg" and b.local_ty(strip_refs(v[1])[1]) == "&board::BoardState":
+                    return strip_refs(v[1])[1] - 1, "last_move"
+                if v[0] == "arg" and lm_ty is not None and b.local_ty(v[1]) == lm_ty:
+                    return v[1] - 1, "id"
+                return None
+    return None
+
+
+def r18_7(ctx):
+    """PV bookkeeping primitives: insert_into_cur_line stores the move's descriptor at the given ply,
+    set_principle_variation copies the current line into the PV, the info line prints the PV array."""
+    f = ctx.facts
+    b = f.body(INS_LINE)
+    ctx.note_fn(INS_LINE, SET_PV, SSI)
+    ctx.ob("insert_into_cur_line", _ins_line_store(f) is not None, b.file,
+           "cur_line[ply] = the move descriptor it is given (`mov.last_move` of a board, or the descriptor itself)")
     b = f.body(SET_PV)
     ex = Exprs(b)
     ok = False
